@@ -6616,13 +6616,32 @@ tsk_tree_clear(tsk_tree_t *self)
 {
     int ret = 0;
     tsk_size_t j;
-    tsk_id_t u;
+    tsk_id_t u, v;
     const tsk_size_t N = self->num_nodes + 1;
     const tsk_size_t num_samples = self->tree_sequence->num_samples;
     const bool sample_counts = !(self->options & TSK_NO_SAMPLE_COUNTS);
     const bool sample_lists = !!(self->options & TSK_SAMPLE_LISTS);
     const tsk_flags_t *flags = self->tree_sequence->tables->nodes.flags;
 
+    if (sample_counts && self->num_edges > 0) {
+        /* A sample node's tracked count includes the tracked samples below it in
+         * the current tree. Reduce it to the node's own contribution (its total
+         * minus what its children carry) while the topology is still in place,
+         * using num_samples, which is reset below, as scratch space. With no
+         * edges in the tree (also the case on the first call from tsk_tree_init)
+         * no node has children and there is nothing to do. */
+        for (j = 0; j < num_samples; j++) {
+            u = self->samples[j];
+            self->num_samples[u] = self->num_tracked_samples[u];
+            for (v = self->left_child[u]; v != TSK_NULL; v = self->right_sib[v]) {
+                self->num_samples[u] -= self->num_tracked_samples[v];
+            }
+        }
+        for (j = 0; j < num_samples; j++) {
+            u = self->samples[j];
+            self->num_tracked_samples[u] = self->num_samples[u];
+        }
+    }
     self->interval.left = 0;
     self->interval.right = 0;
     self->num_edges = 0;
